@@ -23,7 +23,7 @@ Record tables := {
   t_re       : list (string * list (string * bool));      (* pattern -> value -> match *)
   t_b64std   : list (string * option string);
   t_jhdr     : list (string * option string);
-  t_jclaims  : list (string * option (option Z * option Z * option Z));
+  t_jclaims  : list (string * option (jclaim * jclaim * jclaim));
   t_b64canon : list (string * option string);
   t_jmac     : list (string * list (string * string));    (* alg -> signing input -> text (secret = the configured one) *)
   t_ptime    : list (string * option (Z * string * string));
@@ -218,3 +218,60 @@ Definition stage_text (q : quirks) (c : vcase) : string :=
 Definition explain_v (pinned : quirks) (c : vcase) :=
   (("pinned", run pinned c), ("ideal", run ideal c), ("guard", guard c),
    ("expect-accept", v_expect c), ("pinned-sig", stage_text pinned c), ("ideal-sig", stage_text ideal c)).
+
+(** ** group "etcd": histories of user-set updates interleaved with requests *)
+Inductive estep :=
+| SUpdate (l : list ecred)
+| SReq (r : request) (ob : observed) (expect : bool).
+
+Record ecase := {
+  ec_alive : bool;                (* the initial GetPrefix succeeded *)
+  ec_init : list ecred;
+  ec_steps : list estep;
+  ec_b64 : list (string * option string);
+  ec_stuck : bool                 (* an update could not be handed to the watcher *) }.
+
+Definition eoracle (c : ecase) : oracle :=
+  oracle_of {| t_ck := []; t_re := []; t_b64std := ec_b64 c; t_jhdr := []; t_jclaims := []; t_b64canon := [];
+               t_jmac := []; t_ptime := []; t_puint := []; t_sha := []; t_mac := [] |}.
+
+Definition eops (c : ecase) : list eop :=
+  map (fun s => match s with SUpdate l => EUpdate l | SReq r _ _ => EReq r end) (ec_steps c).
+
+Fixpoint ereqs (l : list estep) : list (request * observed * bool) :=
+  match l with
+  | [] => []
+  | SUpdate _ :: t => ereqs t
+  | SReq r ob e :: t => (r, ob, e) :: ereqs t
+  end.
+
+Definition eguard (c : ecase) : bool :=
+  forallb (fun x => let r := fst (fst x) in
+                    let h := mget "Authorization" (r_headers r) in
+                    if String.prefix basic_prefix h then has (sdrop 6 h) (ec_b64 c) else true) (ereqs (ec_steps c)).
+
+Fixpoint all2 {A B} (f : A -> B -> bool) (l1 : list A) (l2 : list B) : bool :=
+  match l1, l2 with
+  | [], [] => true
+  | a :: t1, b :: t2 => f a b && all2 f t1 t2
+  | _, _ => false
+  end.
+
+Definition has_empty_update (l : list estep) : bool :=
+  existsb (fun s => match s with SUpdate [] => true | _ => false end) l.
+
+Definition check_etcd (pinned : quirks) (c : ecase) : result :=
+  let o := eoracle c in
+  let users0 := if ec_alive c then users_of (ec_init c) else [] in
+  let mp := etcd_run pinned o (ec_alive c) users0 (eops c) in
+  let mi := etcd_run ideal o (ec_alive c) users0 (eops c) in
+  let rs := ereqs (ec_steps c) in
+  let ok := eguard c && negb (ec_stuck c) in
+  (ok && all2 (fun m x => outcome_matches m (snd (fst x))) mp rs,
+   ok && all2 (fun m x => let ob := snd (fst x) in
+                          ob_wellformed ob && Bool.eqb (ob_accepted ob) (snd x) && Bool.eqb (ob_accepted ob) (is_pass m)) mi rs,
+   match rs with [] => 0%N | _ => (1 + (if has_empty_update (ec_steps c) then 1 else 0) + (if ec_alive c then 0 else 2))%N end,
+   0%N).
+
+Definition explain_etcd (pinned : quirks) (c : ecase) :=
+  (etcd_run pinned (eoracle c) (ec_alive c) (if ec_alive c then users_of (ec_init c) else []) (eops c), eguard c).
